@@ -280,6 +280,11 @@ fn build_case(rng: &mut Rng) -> Case {
             opaque.insert(i);
         }
     }
+    // top-level alternation in one pattern (`a|b` must mean "the whole name is a or the whole name is b": the
+    // generated names contain proper prefixes of each other — S1, S10, S12)
+    if block.types.len() >= 2 && rng.chance(1, 2) { let b = block.types.pop().unwrap(); let a = block.types.pop().unwrap(); block.types.push(format!("{a}|{b}")); }
+    if block.items.len() >= 2 && rng.chance(1, 2) { let b = block.items.pop().unwrap(); let a = block.items.pop().unwrap(); block.items.push(format!("{a}|{b}")); }
+    if opaque_pats.len() >= 2 && rng.chance(1, 2) { let b = opaque_pats.pop().unwrap(); let a = opaque_pats.pop().unwrap(); opaque_pats.push(format!("{a}|{b}")); }
     if mode == 2 && rng.chance(1, 2) {
         // a type matched by a blocklist AND an opaque pattern (not emitted; its containers must still not
         // derive anything through it)
@@ -603,7 +608,8 @@ fn oracles(
             continue;
         }
         if let Some(o) = l.name.as_ref().and_then(|n| p.resolve_ident(&map, n)) {
-            if !touched.contains(&o) && !defined_now.contains(&o) {
+            // (an opaque type that is not blocklisted is still defined — as a blob — so it counts too)
+            if (!touched.contains(&o) || (c.opaque.contains(&o) && !c.blocked.contains(&o))) && !defined_now.contains(&o) {
                 let ns_blocked = p.decls[o].ns.is_some_and(|ns| {
                     let full_ns = &p.namespaces[ns];
                     run.dump.items.iter().any(|it| it.kind == "module" && it.blocklisted && (full_ns == &it.name || full_ns.starts_with(&format!("{}::", it.name))))
